@@ -574,8 +574,10 @@ def parser_exception_specs(tier):
 
 
 def specs(tier):
+    from . import c11_render
+
     return [*parser_exception_specs(tier), *[ScannerMethod(m) for m in SCANNER_METHODS], ErrorContext(), *[CursorSpec(m) for m in ("current", "next", "peek", "eat")],
-            c12.ParseHexDigits(), c12.DecodeEscape(), c12.DecodeHexChar(), c12.UnescapeString()]
+            c12.ParseHexDigits(), c12.DecodeEscape(), c12.DecodeHexChar(), c12.UnescapeString(), *c11_render.specs(tier)]
 
 
 # ------------------------------------------------------------------ corpus stand-in
